@@ -5,16 +5,16 @@
 (* with a foreign key, manipulated in every way, read in every partition.            *)
 EXTENDS KeysetReader, TLC
 
-CONSTANTS MaxN, MaxChunk, SrcFails, ManipMode, MaxAppend, MaxPermSegs, ReadModes, KeysetSizes
+CONSTANTS MaxN, MaxChunk, SrcFails, ManipMode, MaxAppend, MaxPermSegs, ReadModes, KeysetSizes, NShapes
 
 H3 == <<1, 1, 1>>
 H4 == <<1, 2, 1>>
-\* parameter shapes (main key filled in by position)
-Shapes == { [P |-> 4, T |-> 1, Off |-> 3, Hdr |-> H3],        \* first segment 1, full 4
-            [P |-> 4, T |-> 2, Off |-> 3, Hdr |-> H3],        \* same plaintext sizes, longer tag
-            [P |-> 5, T |-> 2, Off |-> 4, Hdr |-> H3],        \* user offset 1: first segment 1, full 5
-            [P |-> 6, T |-> 1, Off |-> 4, Hdr |-> H4] }       \* longer header: first segment 2, full 6
-OKShapes == {s \in Shapes : s.P - s.Off >= 1}
+\* parameter shapes (the main key is filled in by position); a configuration uses the first NShapes of them
+ShapeSeq == << [P |-> 4, T |-> 1, Off |-> 3, Hdr |-> H3],        \* first segment 1, full 4
+               [P |-> 6, T |-> 1, Off |-> 4, Hdr |-> H4],        \* longer header: first segment 2, full 6
+               [P |-> 5, T |-> 2, Off |-> 4, Hdr |-> H3],        \* user offset 1: first segment 1, full 5
+               [P |-> 4, T |-> 2, Off |-> 3, Hdr |-> H3] >>      \* plaintext sizes of the first, longer tag
+OKShapes == {ShapeSeq[i] : i \in 1..NShapes}
 WithKey(s, k) == [P |-> s.P, T |-> s.T, Off |-> s.Off, Hdr |-> s.Hdr, mk |-> k]
 CandSets == UNION {{[k \in 1..n |-> WithKey(f[k], k)] : f \in [1..n -> OKShapes]} : n \in KeysetSizes}
 
